@@ -1,7 +1,10 @@
 #!/usr/bin/env python3
 # Probe: C17 round.rs monomorphised at NaiveDateTime, real text.
 import sys, re
-sys.path.insert(0, '/tmp/vprobe')
+import os
+HERE = os.path.dirname(os.path.abspath(__file__))
+OUT = os.environ.get('PROBE_OUT', '/var/tmp')
+sys.path.insert(0, HERE)
 from xprobe import *
 
 R = Src('/repo/src/round.rs')
@@ -105,5 +108,5 @@ for name, ens in [
                        hints=[HINT]))
 sig, body = R.fn('span_for_digits')
 out.append(emit_fn(sig, body, ensures="digits >= 9 ==> r == 1, digits == 0 ==> r == 1_000_000_000, digits == 3 ==> r == 1_000_000, digits == 6 ==> r == 1000"))
-open('/tmp/vprobe/round_unit.rs', 'w').write(PRE + '\n'.join(out) + '\n} // verus!\nfn main() {}\n')
+open(os.path.join(OUT, 'round_unit.rs'), 'w').write(PRE + '\n'.join(out) + '\n} // verus!\nfn main() {}\n')
 print('ok')
